@@ -21,7 +21,8 @@ def process_level(res, tier):
     for rf in ("linear", "sin"):
         for per in ("Ts", "rev"):
             for outstep in ((0, 1, 3, 4, 12, 13) if vlib.wide(tier) else (0, 1, 3, 12)):
-                for amp, fmod in (((1.0, 4e4), (0.3, 1.7e5)) if vlib.wide(tier) else ((1.0, 4e4),)):
+                # (amplitudes up to three quarters of an RF period: the recorded - and applied - phase is the configured sine, not that sine folded into one period)
+                for amp, fmod in (((1.0, 4e4), (0.3, 1.7e5), (270.0, 4e4), (170.0, 9e4)) if vlib.wide(tier) else ((1.0, 4e4),)):
                     cases.append((rf, per, outstep, amp, fmod, 12))
         # runs longer than one synchrotron period (the record and the queue cover every step of the whole run)
         for outstep in ((0, 7) if vlib.wide(tier) else (7,)):
